@@ -303,11 +303,14 @@ def _compile_v(v, deps, timeout):
         m = re.match(r"Extract/Extract_(\w+)\.v$", v)
         if m:
             os.makedirs(os.path.join(VERIF, "ocaml", "gen", m.group(1)), exist_ok=True)
-        tmpd = os.path.join(CACHE, "coqtmp", "%d-%s" % (os.getpid(), v.replace("/", "_")))
+        # the logical name of the library is derived from where the .vo is written, so the
+        # scratch output directory mirrors the tree and is bound to F8 as well
+        tmproot = os.path.join(CACHE, "coqtmp", "%d-%s" % (os.getpid(), v.replace("/", "_")))
+        tmpd = os.path.join(tmproot, os.path.dirname(v))
         os.makedirs(tmpd, exist_ok=True)
         base = os.path.basename(v) + "o"
         t0 = time.time()
-        rc, out = run(["timeout", str(timeout), "coqc", "-q", "-Q", ".", "F8", "-w", "-all", "-o",
+        rc, out = run(["timeout", str(timeout), "coqc", "-q", "-Q", ".", "F8", "-Q", tmproot, "F8", "-w", "-all", "-o",
                        os.path.join(tmpd, base), v], cwd=COQDIR, timeout=timeout + 30, check=False, quiet=True)
         ok = rc == 0 and os.path.exists(os.path.join(tmpd, base))
         if ok:
@@ -317,7 +320,7 @@ def _compile_v(v, deps, timeout):
                 os.remove(os.path.join(COQDIR, v + "o"))
             except OSError:
                 pass
-        shutil.rmtree(tmpd, ignore_errors=True)
+        shutil.rmtree(tmproot, ignore_errors=True)
         if time.time() - t0 > 20:
             log("%.0fs coqc %s" % (time.time() - t0, v))
         return ok, ("" if ok else "coqc %s failed (rc=%d):\n%s\n" % (v, rc, out[-3000:]))
